@@ -8,6 +8,7 @@ import (
 
 	"github.com/bbockelm/cedar/addresses"
 	"github.com/bbockelm/cedar/security"
+	"github.com/bbockelm/cedar/stream"
 )
 
 func init() {
@@ -47,15 +48,33 @@ func VH_C20_FreshIDPerRequest() {
 	VerifHook_dialProxy = func(ctx context.Context, c addresses.CCBContact, connectID string, o DialOptions) (net.Conn, error) {
 		return attempt(connectID)
 	}
+	// nested (multi-hop) contacts go through resolveContact / proxyRequestDial: the
+	// entry broker's handshake and the streaming request itself are stubs; the id and
+	// the return address must reach the request in their own positions
+	VerifHook_dialBrokerAuth = func(ctx context.Context, addr string, sec *security.SecurityConfig) (net.Conn, *stream.Stream, *security.SecurityNegotiation, error) {
+		return &vhConn{id: 5}, nil, &security.SecurityNegotiation{ServerConfig: &security.SecurityConfig{RemoteVersion: "$CondorVersion: 99.0.0 $"}}, nil
+	}
+	VerifHook_proxyRequestOnStream = func(ctx context.Context, bc net.Conn, bs *stream.Stream, ccbid, route, connectID, returnAddr, name string) (net.Conn, error) {
+		vAssert(returnAddr == "<198.51.100.9:9618>" || returnAddr == "", "return-address-travels-as-the-return-address")
+		return attempt(connectID)
+	}
 	defer func() {
+		VerifHook_dialBrokerAuth = nil
+		VerifHook_proxyRequestOnStream = nil
 		VerifHook_GenerateConnectID = nil
 		VerifHook_dialStandard = nil
 		VerifHook_dialProxy = nil
 	}()
 	n := 2 + vChoice("extra_broker", 2)
+	nested := vBool("nested_contacts")
 	var contacts []addresses.CCBContact
 	for i := 0; i < n; i++ {
 		b := "192.0.2." + strconv.Itoa(10+i) + ":9618"
+		if nested {
+			// the broker is itself reached through CCB: <entry>#5, then #<id>
+			contacts = append(contacts, addresses.CCBContact{BrokerAddr: b + "#5", CCBID: strconv.Itoa(40 + i), Raw: b + "#5#" + strconv.Itoa(40+i)})
+			continue
+		}
 		contacts = append(contacts, addresses.CCBContact{BrokerAddr: b, CCBID: strconv.Itoa(40 + i), Raw: b + "#" + strconv.Itoa(40+i)})
 	}
 	opts := DialOptions{Security: &security.SecurityConfig{}, Stagger: -1}
